@@ -30,6 +30,8 @@ func NewTrackStakeChangesDecorator(rk keeper.Keeper, sk types.StakingKeeper) Tra
 func (t TrackStakeChangesDecorator) AnteHandle(ctx sdk.Context, tx sdk.Tx, simulate bool, next sdk.AnteHandler) (sdk.Context, error) {
 	// loop through all the messages and check if the message type will change stake by more than 5%
 	var msgAmount math.Int
+	// the 5% bound applies to the combined stake-adding and the combined stake-removing amounts of the transaction
+	totalIncrease, totalDecrease := math.ZeroInt(), math.ZeroInt()
 	for _, msg := range tx.GetMsgs() {
 		switch msg := msg.(type) {
 		case *stakingtypes.MsgCreateValidator:
@@ -64,14 +66,17 @@ func (t TrackStakeChangesDecorator) AnteHandle(ctx sdk.Context, tx sdk.Tx, simul
 		if err != nil {
 			return ctx, err
 		}
-		changeAmt := currentAmount.Add(msgAmount)
 		if msgAmount.IsNegative() {
+			totalDecrease = totalDecrease.Add(msgAmount)
+			changeAmt := currentAmount.Add(totalDecrease)
 			// subtract 5 percent from last updated amount
 			allowedLowerBound := lastupdated.Amount.Sub(lastupdated.Amount.QuoRaw(20))
 			if changeAmt.LT(allowedLowerBound) {
 				return ctx, errors.New("total stake decrease exceeds the allowed 5% threshold within a twelve-hour period")
 			}
 		} else {
+			totalIncrease = totalIncrease.Add(msgAmount)
+			changeAmt := currentAmount.Add(totalIncrease)
 			// add 5 percent to last updated amount
 			allowedUpperBound := lastupdated.Amount.Add(lastupdated.Amount.QuoRaw(20))
 			if changeAmt.GT(allowedUpperBound) {
